@@ -78,6 +78,34 @@ pub fn check_position(p: &Pos, every: usize, rng: &mut gen::R, rep: &mut Report)
                 }
             }
         }
+        // the same text through State::by_performing_moves (the consumer the opening-book build uses for SAN): the
+        // shortest spelling and one other, applied to the state, must arrive at the successor of exactly that move
+        if !spellings.is_empty() {
+            let shortest = spellings.iter().min_by_key(|s| s.len()).unwrap();
+            let other = &spellings[rng.gen_range(0..spellings.len())];
+            for s in [shortest, other] {
+                let Ok(q) = try_from_notation::<MoveQuery, San>(s) else { continue };
+                match guard(|| State::by_performing_moves(&st, &[q])) {
+                    Ok(Ok(after)) => {
+                        let want = p.make(om);
+                        let got = crate::conv::to_pos(&after);
+                        if got.b != want.b || got.wtm != want.wtm || got.castle != want.castle {
+                            rep.violation("san-resolve", &format!("san-resolve|apply|{}|{}", fen, s), &format!("'{}' applied through by_performing_moves gives {}, {} leads to {}", s, got.fen(), omove_str(om), want.fen()), json!({"fen": fen, "text": s}));
+                            return false;
+                        }
+                    }
+                    Ok(Err(e)) => {
+                        rep.violation("san-resolve", &format!("san-resolve|apply|{}|{}", fen, s), &format!("'{}' (the notation of the legal move {}) is refused by by_performing_moves: {:?}", s, omove_str(om), e), json!({"fen": fen, "text": s}));
+                        return false;
+                    }
+                    Err(e) => {
+                        rep.violation("san-panic", &format!("san-panic|apply|{}", s), &e, json!({"fen": fen, "text": s}));
+                        return false;
+                    }
+                }
+                rep.count("san_texts_applied", 1);
+            }
+        }
         rep.count("spellings", spellings.len() as u64);
         if spellings.len() > 2 || om.promo.is_some() || om.castle.is_some() {
             rep.distinct(mix(p.key_hash(), (om.from as u64) << 16 | (om.to as u64) << 8 | om.promo.map(|k| k as u64).unwrap_or(0)));
